@@ -43,6 +43,19 @@ Theorem C08_l1_delrows_refines : forall t dead r,
 Proof. exact delrows_refines. Qed.
 Print Assumptions C08_l1_delrows_refines.
 
+(* DataMatrix.rename: the guard chain regenerated from the source (old == new: nothing; old missing, new present or
+   not an identifier: ValueError, nothing changed; otherwise the order-preserving recipe) is the L0 rename *)
+Theorem C08_l1_rename_refines : forall (w : world) p ti old new ident,
+  pool w = map abs p ->
+  match lstep p (ORename ti old new ident) with
+  | LUpd i r => step w (ORename ti old new ident) = (put w i (abs r), OkUnit)
+  | LErr => snd (step w (ORename ti old new ident)) = Err ValueError /\ fst (step w (ORename ti old new ident)) = w
+  | LSkip => nth_error p ti = None
+  | _ => False
+  end.
+Proof. exact rename_refines. Qed.
+Print Assumptions C08_l1_rename_refines.
+
 Theorem C08_keeps_invariant : forall w o, wwf w -> wwf (fst (step w o)).
 Proof. exact step_wf. Qed.
 Print Assumptions C08_keeps_invariant.
